@@ -140,7 +140,7 @@ _GLOBAL = {'main': _LEAVES_Q + _CORE, 'tmove': _TMOVE_Q}
 QUICK = {
     'C01': {'main': _CORE + _CORE2 + _PUB + ['sv_at__ul', 'sv_at__ul_c', 'sv_op_index__ul', 'sv_front__v', 'sv_back__v']},
     'C02': {'main': _CORE + _OBS + ['sv_shrink_to_fit'], 'tmove': _TMOVE_Q, 'n0': ['svb_append_element__pcE', 'sv_inlined'], 'pocma': ['svb_move_assign_default__psvb'], 'pocs': ['svb_swap_default']},
-    'C03': _GLOBAL, 'C04': dict(_GLOBAL, main=_LEAVES_Q + _CORE + ['svb_move_assign_default__psvb'], pair_lt=['svb_move_assign_default__psvbM']), 'C06': dict(_GLOBAL, main=_LEAVES_Q + _CORE + ['svb_swap_default']),
+    'C03': _GLOBAL, 'C04': dict(_GLOBAL, main=_LEAVES_Q + _CORE + ['svb_move_assign_default__psvb'], pair_lt=['svb_move_assign_default__psvbM']), 'C06': dict(_GLOBAL, main=_LEAVES_Q + _CORE + ['svb_swap_default'], tmove=_TMOVE_Q + ['svb_insert_copies@tail_lt']),
     'C12': dict(tmove=['svb_append_element__pcE', 'svb_request_capacity'], kf_inline_gt_max=['svb_append_element__pcE'], main=['ai_uninitialized_fill__pE_pE_pcE', 'ai_external_range_length__pcE_pcE', 'svb_unchecked_calculate_new_capacity', 'svb_append_element__pcE', 'svb_append_copies', 'svb_request_capacity',
                       'svb_emplace_into_reallocation__pE_pcE', 'svb_assign_with_copies', 'svb_ctor__ul_pcE_pcA', 'svb_ctor__pcE_pcE_pcA', 'svb_append_range__strong_pcE_pcE',
                       'svb_insert_copies@realloc', 'sv_max_size', 'sv_reserve'],
